@@ -1329,8 +1329,9 @@ bool dispatch_api(State& st, const std::string& op, const json& a, json& ret)
         sqlite3* conn = lib_conn();
         int64_t tid = st.T(a.at("t").get<std::string>()).id();
         auto has = [&](const std::string& name) {
-            return !raw_query(conn, st.is_v2 ? "SELECT 1 FROM sqlite_master WHERE type = 'table' AND name = ?"
-                                             : "SELECT 1 FROM music.sqlite_master WHERE type = 'table' AND name = ?",
+            // (from 1.9.1 on the per-kind list tables are views over List / ListTrackList with INSTEAD OF triggers)
+            return !raw_query(conn, st.is_v2 ? "SELECT 1 FROM sqlite_master WHERE type IN ('table', 'view') AND name = ?"
+                                             : "SELECT 1 FROM music.sqlite_master WHERE type IN ('table', 'view') AND name = ?",
                               json::array({json{{"t", hex_of(name)}}}))["rows"].empty();
         };
         json made = json::array();
@@ -1342,19 +1343,30 @@ bool dispatch_api(State& st, const std::string& op, const json& a, json& ret)
         }
         else
         {
+            // (the lists get the id the caller names - list ids of the different kinds live in separate id spaces and
+            // routinely coincide with crate ids)
+            int64_t lid = a.value("list_id", (int64_t)1);
+            std::string ls = std::to_string(lid);
             if (has("Preparelist") && has("PreparelistTrackList"))
             {
-                raw_query(conn, "INSERT OR IGNORE INTO Preparelist (id, title) VALUES (1, 'Prepare')");
-                raw_query(conn, "INSERT INTO PreparelistTrackList (playlistId, trackId, trackIdInOriginDatabase, databaseUuid, trackNumber) "
-                                "VALUES (1, ?, ?, 'foreign', 1)", json::array({tid, tid}));
+                raw_query(conn, "INSERT OR IGNORE INTO Preparelist (id, title) VALUES (" + ls + ", 'Prepare " + ls + "')");
+                raw_query(conn, "INSERT OR IGNORE INTO PreparelistTrackList (playlistId, trackId, trackIdInOriginDatabase, databaseUuid, trackNumber) "
+                                "VALUES (" + ls + ", ?, ?, 'foreign', 1)", json::array({tid, tid}));
                 made.push_back("PreparelistTrackList");
             }
             if (has("Historylist") && has("HistorylistTrackList"))
             {
-                raw_query(conn, "INSERT OR IGNORE INTO Historylist (id, title) VALUES (1, 'History 1')");
-                raw_query(conn, "INSERT INTO HistorylistTrackList (historylistId, trackId, trackIdInOriginDatabase, databaseUuid, date) "
-                                "VALUES (1, ?, ?, 'foreign', 1600000000)", json::array({tid, tid}));
+                raw_query(conn, "INSERT OR IGNORE INTO Historylist (id, title) VALUES (" + ls + ", 'History " + ls + "')");
+                raw_query(conn, "INSERT OR IGNORE INTO HistorylistTrackList (historylistId, trackId, trackIdInOriginDatabase, databaseUuid, date) "
+                                "VALUES (" + ls + ", ?, ?, 'foreign', 1600000000)", json::array({tid, tid}));
                 made.push_back("HistorylistTrackList");
+            }
+            if (has("Playlist") && has("PlaylistTrackList"))
+            {
+                raw_query(conn, "INSERT OR IGNORE INTO Playlist (id, title) VALUES (" + ls + ", 'Foreign playlist " + ls + "')");
+                raw_query(conn, "INSERT OR IGNORE INTO PlaylistTrackList (playlistId, trackId, trackIdInOriginDatabase, databaseUuid, trackNumber) "
+                                "VALUES (" + ls + ", ?, ?, 'foreign', 1)", json::array({tid, tid}));
+                made.push_back("PlaylistTrackList");
             }
             if (has("CopiedTrack"))
             {
